@@ -86,7 +86,38 @@ func (vm *vm) suspend(ectx *execCtx, tryStackLen, iterStackLen, refStackLen uint
 	if len(vm.refStack) > int(refStackLen) {
 		ectx.refStack = append(ectx.refStack[:0], vm.refStack[refStackLen:]...)
 		vm.refStack = vm.refStack[:refStackLen]
+		// references to stack-allocated bindings hold an absolute index into vm.stack: make it relative to the saved segment
+		base := vm.sb - 1
+		for _, r := range ectx.refStack {
+			if idx := vm.stackRefIdx(r); idx != nil {
+				*idx -= base
+			}
+		}
 	}
+}
+
+// stackRefIdx returns the index field of a reference that addresses a slot of vm.stack (a stack-allocated binding), or nil.
+func (vm *vm) stackRefIdx(r ref) *int {
+	stk := (*[]Value)(&vm.stack)
+	switch r := r.(type) {
+	case *stashRef:
+		if r.v == stk {
+			return &r.idx
+		}
+	case *stashRefLex:
+		if r.v == stk {
+			return &r.idx
+		}
+	case *stashRefConst:
+		if r.v == stk {
+			return &r.idx
+		}
+	case *thisRef:
+		if r.v == stk {
+			return &r.idx
+		}
+	}
+	return nil
 }
 
 func (vm *vm) resume(ctx *execCtx) {
@@ -102,6 +133,11 @@ func (vm *vm) resume(ctx *execCtx) {
 		tf.iterLen += uint32(len(vm.iterStack))
 		tf.refLen += uint32(len(vm.refStack))
 		tf.sp += int32(sp)
+	}
+	for _, r := range ctx.refStack {
+		if idx := vm.stackRefIdx(r); idx != nil {
+			*idx += sp
+		}
 	}
 	vm.tryStack = append(vm.tryStack, ctx.tryStack...)
 	vm.iterStack = append(vm.iterStack, ctx.iterStack...)
